@@ -98,3 +98,69 @@ def stream_wingbox_geometry(R, tier, seed):
         r = res.get(cid)
         judge(S, r, labels, desc, tol=dict({l: 2e-5 for l in labels}, **{"outputs": 1e-9, "J:shape": 0.0}))
     S["coq_errors"] = errs
+
+
+def stream_small_components(R, tier, seed):
+    """SparWithinWing, TotalLift, MultiCD, PanelForcesSurf (three surfaces of different sizes): outputs and Jacobians"""
+    from openaerostruct.structures.spar_within_wing import SparWithinWing
+    from openaerostruct.aerodynamics.total_lift import TotalLift
+    from openaerostruct.integration.multipoint_comps import MultiCD
+    from openaerostruct.aerodynamics.panel_forces_surf import PanelForcesSurf
+    S = {k: R.stream(k + ".outputs+jacobian") for k in ("SparWithinWing", "TotalLift", "MultiCD", "PanelForcesSurf")}
+    cc = CoqCases("jsmall", "Wingbox Small"); meta = []
+    rng = gen.stable_rng(seed, "jsmall")
+    for kind in ("left", "right", "full"):
+        for (nx, ny) in (((2, 3), (3, 4)) if tier == "quick" else ((2, 2), (2, 3), (3, 4), (4, 5))):
+            if kind == "full" and ny % 2 == 0: ny += 1
+            mesh = gen.rand_mesh(rng, nx, ny, kind); n = ny - 1
+            surf = gen.tube_surface(mesh, symmetry=(kind != "full"))
+            ins = {"mesh": mesh, "radius": rng.uniform(0.05, 0.3, n), "t_over_c": rng.uniform(0.06, 0.16, n)}
+            o, J, _ = core.run_comp(SparWithinWing(surface=surf), ins)
+            D = DJ().lit("ne", nat(n)).lit("nx1", nat(nx - 1)).inp("mesh", mesh).inp("radius", ins["radius"]).inp("t_over_c", ins["t_over_c"])
+            out = "T1 {ne} (spar_within_wing {nx1} {mesh} {radius} {t_over_c})"
+            je, jl = D.jac_errs(out, J, ["spar_within_wing"])
+            cid = cc.add("(re (%s) %s :: %s)" % (D.vals(out), arr(o["spar_within_wing"]), je))
+            meta.append((cid, S["SparWithinWing"], ["spar_within_wing"] + jl, {"comp": "SparWithinWing", "kind": kind, "nx": nx, "ny": ny}))
+            R.count("jsmall/spar/%s" % kind)
+    for cl0 in (0.0, 0.2, -0.05):
+        surf = gen.tube_surface(gen.rand_mesh(rng, 2, 3, "left"), CL0=cl0)
+        cl1 = float(rng.uniform(-0.3, 1.0))
+        o, J, _ = core.run_comp(TotalLift(surface=surf), {"CL1": cl1})
+        D = DJ().par("CL0", cl0).scal("CL1", cl1)
+        out = "[total_lift {CL0} {CL1}]"
+        je, jl = D.jac_errs(out, J, ["CL"])
+        cid = cc.add("(re (%s) %s :: %s)" % (D.vals(out), arr(o["CL"]), je))
+        meta.append((cid, S["TotalLift"], ["CL"] + jl, {"comp": "TotalLift", "CL0": cl0, "CL1": cl1}))
+    for npts in (1, 2, 4):
+        cds = rng.uniform(0.005, 0.05, npts)
+        o, J, _ = core.run_comp(MultiCD(n_points=npts), {"%d_CD" % i: cds[i] for i in range(npts)})
+        D = DJ().lit("n", nat(npts))
+        for i in range(npts): D.scal("cd%d" % i, cds[i], "%d_CD" % i)
+        out = "[multi_cd {n} (fun i => nth i [" + "; ".join("{cd%d}" % i for i in range(npts)) + "] o0)]"
+        je, jl = D.jac_errs(out, J, ["CD"])
+        cid = cc.add("(re (%s) %s :: %s)" % (D.vals(out), arr(o["CD"]), je))
+        meta.append((cid, S["MultiCD"], ["CD"] + jl, {"comp": "MultiCD", "n_points": npts}))
+    for sizes in (((2, 3), (3, 4), (3, 3)), ((3, 3), (2, 5))) if tier == "quick" else (((2, 3), (3, 4), (3, 3)), ((3, 3), (2, 5)), ((2, 2), (4, 3), (2, 4), (3, 5))):
+        surfs = [aero_surface_(rng, nx, ny, "s%d" % k) for k, (nx, ny) in enumerate(sizes)]
+        tot = sum((nx - 1) * (ny - 1) for nx, ny in sizes)
+        pf = rng.normal(size=(tot, 3)) * 100
+        names = ["s%d_sec_forces" % k for k in range(len(sizes))]
+        o, J, _ = core.run_comp(PanelForcesSurf(surfaces=surfs), {"panel_forces": pf}, outputs=names)
+        D = DJ().inp("pf", pf, "panel_forces")
+        parts = []; off = 0
+        for (nx, ny) in sizes:
+            parts.append("T3 %s %s 3 (panel_forces_surf %s %s {pf})" % (nat(nx - 1), nat(ny - 1), nat(off), nat(ny - 1))); off += (nx - 1) * (ny - 1)
+        out = "(" + " ++ ".join(parts) + ")"
+        je, jl = D.jac_errs(out, J, names)
+        code = np.concatenate([np.asarray(o[k]).ravel() for k in names])
+        cid = cc.add("(re (%s) %s :: %s)" % (D.vals(out), arr(code), je))
+        meta.append((cid, S["PanelForcesSurf"], ["sec_forces"] + jl, {"comp": "PanelForcesSurf", "sizes": list(sizes)}))
+    res, errs = cc.run(shard=2)
+    for cid, Sx, labels, desc in meta:
+        judge(Sx, res.get(cid), labels, desc, tol=1e-8)
+    S["SparWithinWing"]["coq_errors"] = errs
+
+
+def aero_surface_(rng, nx, ny, name):
+    from .. import aero as A
+    return A.aero_surface(gen.rand_mesh(rng, nx, ny, "left"), name, True)
